@@ -8,9 +8,9 @@ HERE = os.path.dirname(os.path.abspath(__file__))
 COQ = os.path.join(os.path.dirname(HERE), "coq")
 ready = open(os.path.join(HERE, "ready.txt")).read().split()
 shared = {"Lists", "Run", "HZ", "Graph", "LD", "Domain", "Flow", "Exact", "Exact2", "Exact3", "Exact4", "Exact5", "Exact6"}
-lines = ["-Q model PS", "-Q spec PS", "-Q proofs PS", "-Q props PS", "-Q extract PS",
+lines = ["-Q model PS", "-Q spec PS", "-Q proofs PS", "-Q props PS", "-Q extract PS", "-Q pylite PS",
          "-arg -w -arg -notation-overridden,-deprecated"]
-for d in ("model", "spec", "extract"):
+for d in ("model", "spec", "extract", "pylite"):
     lines += sorted(os.path.relpath(f, COQ) for f in glob.glob(os.path.join(COQ, d, "*.v")))
 for f in sorted(glob.glob(os.path.join(COQ, "proofs", "*.v"))):
     pre = os.path.basename(f).split("_")[0].split(".")[0]
